@@ -102,6 +102,12 @@ uint64_t vt_rand_dbits(vrng *r);
 uint32_t vt_rand_len(vrng *r, const vgen *g);
 void   vt_rand_name(vrng *r, const vgen *g, const uint8_t **p, uint32_t *n);
 
+/* all ordered trees with exactly n nodes over the given leaf kinds ('i' int, 's' string, 'b' bool) and {object 'O', array 'A'},
+ * as prefix codes such as "OiA))"; vt_enum[n] lists them after vt_enum_build(maxn, leaves) */
+typedef struct { char **v; size_t n, cap; } strlist;
+extern strlist vt_enum[10];
+void   vt_enum_build(int maxn, const char *leaves);
+vnode *vt_from_code(const char **code, int *counter);   /* object children are named "bx","cx",.. by position */
 /* independent encoder; fills the span fields of every node */
 void   vt_encode(vnode *root, vbuf *out);
 /* encodes a single integer / length the canonical way (used by the writer oracles) */
@@ -193,6 +199,7 @@ typedef struct {
 } vargs;
 extern vargs VA;
 void vw_init(int argc, char **argv);
+int  vw_capture_stdout(void);                     /* stdout -> an anonymous file; returns its fd */
 void vw_mute_stdout(void);                        /* library printf output -> /dev/null until vw_finish */
 void vw_unmute_stdout(void);
 void vw_inflight(const char *fmt, ...) __attribute__((format(printf, 1, 2)));
